@@ -670,6 +670,14 @@ class Prefix:
         symbol: Optional[str] = None,
     ) -> None:
         if self._initialized:
+            # this prefix may have been produced anonymously before it was declared
+            # (like `Prefix(10, -1) * Bel`), so honor the declaration now
+            if name and not self.name:
+                self.name = name
+                self._by_name[name] = self
+            if symbol and not self.symbol:
+                self.symbol = symbol
+                self._by_symbol[symbol] = self
             return
 
         self.base = base
